@@ -50,8 +50,10 @@ def checkEdifIdentifier (s : Str) : Bool :=
   | '&' :: r => 2 ≤ s.length && s.length ≤ 256 && r.all isIdChar
   | c :: _ => s.length ≤ 255 && isAsciiAlpha c && s.all isIdChar
 
-/-- characters a stringToken may contain between its quotes (printable ASCII but `"`, and tab) -/
-def isStringChar (c : Char) : Bool := (32 ≤ c.toNat && c.toNat ≤ 126 && c != '"') || c == '\t'
+/-- characters a stringToken may contain between its quotes: anything but the double quote (as
+    repaired: docs/fixes/edif_string_token_any_char.diff; the pinned commit accepted printable ASCII
+    and TAB only).  Line breaks never reach a token (the tokenizer drops them inside quotes). -/
+def isStringChar (c : Char) : Bool := c != '"' && c != '\n' && c != '\r'
 
 /-- `parse_stringToken`: the token must be `"…"`; returns the text between the quotes -/
 def stringTok (s : Str) : Option Str :=
